@@ -107,3 +107,10 @@ TEXTS["C14"] = {
     "level_note": "Trusts the model's reading of the statement (spelled out in the rule), the ingestion barrier, and that one table processes its stream in insertion order (so the clock at processing time is known). Expired-but-not-yet-truncated periods are only required to hold no more than was stored.",
     "technique": "stateful model-based property testing (rapid): generated histories against a retention model with must/may/must-not period sets",
 }
+
+TEXTS["C15"] = {
+    "level_text": "Exploration by model-based histories: generated interleavings of inserts, flushes, clean restarts (with and without a changed definition), live alterations (field deletions, insertions incl. wide PERCENTILE columns, permutations, WHERE replacement) and checks, decided by a per-field-identity reference aggregator. Finds positional column-mapping errors between file header, memstore layout and requested fields, raw pass-through under a changed header, and retroactive application of a new WHERE. Does not establish absence.",
+    "design_ref": "DESIGN.md section 4 C15",
+    "level_note": "Trusts the reference aggregator and the ingestion / field-update barriers of the verif hooks. Histories stay inside one retention window.",
+    "technique": "stateful model-based property testing (rapid): alteration histories against a per-field-identity reference aggregator",
+}
